@@ -18,3 +18,9 @@ def fill(P):
       "contract-based deductive verification (validate_score_vector, scoring loops, elect_cands_from_set_ranking) + bounded exact-arithmetic oracle",
       "Loop-invariant contracts on the scoring utilities discharged by SMT; exact positional-score oracle evaluated on small-scope exhaustive profiles (bounded).",
       "", "DESIGN.md 4-C04")
+
+    P("C05", "other",
+      "contract-based deductive verification (GeneralRating constructor/validator raises-iff tables, subclass delegation, score totals loop, elect_cands_from_set_ranking) + bounded run-time contract checks",
+      "Validator loop proved with a forall-ballots invariant (every ballot, exact boundaries); constructor tables proved against the assumed abstract contract of Election.__init__; "
+      "score totals and top-m election via the proved utils contracts; whole elections on small score profiles are a bounded check.",
+      "Election.__init__ and PreferenceProfile(...) are assumed contracts (listed in trusted_base).", "DESIGN.md 4-C05")
